@@ -220,7 +220,7 @@ CHECKS["C06"] = ("proof",
     "the REAL bodies of Base58.decode / char_value and Base58.encode for strings of ANY length by loop invariants and recursive spec "
     "functions (decode = one zero byte per leading '1' + bytes of the Horner value, Base58Error exactly for empty / foreign characters; "
     "encode read backwards = base-58 digits of the value, least significant first, then one '1' per leading zero byte). "
-    "Bounded (labelled): Base58 round trip and mnemonic numeral loops vs independent encoders, published BIP32 vectors 1-3, an own pure-Python "
+    "Bounded (labelled): Base58 round trip, bytes_to_int / int_to_bytes against int.from_bytes / to_bytes (636 cases) and mnemonic numeral loops vs independent encoders, published BIP32 vectors 1-3, an own pure-Python "
     "secp256k1/BIP32 reference on 4 seeds x 9 paths, real accounts regenerating the same addresses.",
     "Trusted: HMAC-SHA512/SHA-256/RIPEMD-160 uninterpreted, coincurve operations with one group-law instance, bytes_to_int / "
     "int_to_bytes by their big-endian contract (checked bounded), s[::-1] as reversal (involution and length axioms), the inductive "
